@@ -171,7 +171,7 @@ def Map.empty (nb : Nat) (ns : Nat) (n : Nat) : Map X :=
   { n := n
     b := Array.replicate nb (Array.replicate n 0)
     u := Array.replicate n false
-    a := Array.replicate ns (Array.replicate n none) }
+    a := (Array.replicate ns (Array.replicate (n + 1) none)).setIfInBounds 0 (Array.replicate n none) }
 
 /-- `add_free_darts(k)`; returns the first new id -/
 def Map.addFreeDarts (m : Map X) (k : Nat) : Nat × Map X :=
